@@ -37,7 +37,7 @@ def info_preserving(km, has_varargs):
 
 
 @st.composite
-def edits(draw, rest, b, vals, sibling=None):
+def edits(draw, rest, b, vals, sibling=None, prefer_twin_swap=False):
     """(B1', B2, kind): B1' is b possibly with a slot overwritten (for look-alike/twin pairs), B2 one edit away"""
     b1 = copy.deepcopy(b)
     b2 = copy.deepcopy(b)
@@ -50,7 +50,8 @@ def edits(draw, rest, b, vals, sibling=None):
         structural += ['add_xkw'] + (['drop_xkw'] if b.get('xkw') else [])
     named_slots = [x for x in slots if x[0] in ('named', 'kwonly', 'xkw')]
     if len(named_slots) >= 2:
-        structural = structural + ['twin_swap']
+        # equal-but-differently-typed values swapped between two parameters: what a typed key must still tell apart
+        structural = structural + ['twin_swap'] * (8 if prefer_twin_swap else 1)
     omitted_opt = [n for n, _ in rest.get('opt', []) if n not in [k for k, _ in b.get('named', [])]]
     if sibling and omitted_opt and not b.get('xpos'):
         structural = structural + ['sibling_default', 'sibling_default']
@@ -95,8 +96,19 @@ def edits(draw, rest, b, vals, sibling=None):
     return b1, b2, choice
 
 
+def family_of(km):
+    if km.get('then'):
+        return 'chained'
+    if km['cls'] == 'keymap':
+        return 'raw-typed' if km['typed'] else 'raw'
+    return {'stringmap': 'string', 'picklemap': 'pickle', 'hashmap': 'hash'}[km['cls']]
+
+
+FAMILIES = ['raw', 'raw-typed', 'string', 'pickle', 'hash', 'chained']
+
+
 @st.composite
-def cases(draw, path, focus=None):
+def cases(draw, path, focus=None, family=None):
     sig = draw(S.signatures())
     if focus == 'varargs':
         # flat keys of purely variadic functions: the shape where 'fast type' unwrapping and missing separators bite
@@ -104,25 +116,45 @@ def cases(draw, path, focus=None):
     kind = draw(st.sampled_from(['function', 'function', 'function', 'method', 'partial']))
     vals = V.hashables(max_depth=1, special_floats=False)
     nfix = draw(st.integers(0, len(sig['req']))) if kind == 'partial' else 0
-    rest = rest_sig(sig, nfix, [])
+    pkw = []
+    if kind == 'partial':
+        # the partial may preset keyword-only parameters that also have a default in the wrapped function
+        for n, d in sig['kwopt']:
+            if draw(st.booleans()):
+                v = draw(vals)
+                if V.build(v) != V.build(d):
+                    pkw.append([n, v])
+    rest = rest_sig(sig, nfix, pkw)
     b = draw(S.bindings(rest, vals, force_xpos=(focus == 'varargs' and draw(st.integers(0, 3)) > 0)))
+    tol = draw(st.sampled_from([None, None, None, 0, 1])) if path != '_keygen' else None
+    deep = draw(st.booleans()) if tol is not None else False
     sibling = None
     if kind == 'function' and sig['opt'] and draw(st.integers(0, 2)) == 0:
         # a sibling function object sharing the code object but with other defaults (closure factory / lambda-in-a-loop shape)
         sibling = [[n, draw(vals)] for n, _ in sig['opt']]
-    b1, b2, ek = draw(edits(rest, b, vals, sibling))
+    b1, b2, ek = draw(edits(rest, b, vals, sibling, prefer_twin_swap=(family == 'raw-typed')))
+    preset_omitted = [n for n, _ in pkw if n not in [k for k, _ in b.get('kwonly', [])]]
+    if preset_omitted and draw(st.booleans()):
+        # 'leave the partial's preset alone' vs 'pass the wrapped function's ORIGINAL default explicitly': different calls
+        n = preset_omitted[draw(st.integers(0, len(preset_omitted) - 1))]
+        b1, b2, ek = copy.deepcopy(b), copy.deepcopy(b), 'spell_original_default'
+        b2.setdefault('kwonly', []).append([n, dict((k, d) for k, d in sig['kwopt'])[n]])
     kms = [k for k in KEYMAPS if info_preserving(k, bool(sig['varargs']))]
     if focus == 'varargs':
         kms = [k for k in kms if k['flat']]
+    if family is not None:
+        kms = [k for k in kms if family_of(k) == family] or kms
     km = draw(st.sampled_from(kms))
     module = 'safe' if (km['cls'] == 'keymap' and not km['flat']) else draw(st.sampled_from(['std', 'safe']))
-    return {'sig': sig, 'kind': kind, 'nfix': nfix, 'fixed': [draw(vals) for _ in range(nfix)], 'pkw': [], 'b1': b1, 'b2': b2, 'edit': ek, 'sibling': sibling,
+    return {'sig': sig, 'kind': kind, 'nfix': nfix, 'fixed': [draw(vals) for _ in range(nfix)], 'pkw': pkw, 'tol': tol, 'deep': deep, 'b1': b1, 'b2': b2, 'edit': ek, 'sibling': sibling,
             'form1': draw(st.integers(0, 255)), 'form2': draw(st.integers(0, 255)), 'keymap': km, 'path': path, 'module': module,
             'algo': draw(st.sampled_from(['inf', 'lru', 'lfu', 'mru', 'rr'] + H.DISPATCHED))}
 
 
 def strata(tier):
-    return [('path:' + p, cases(p)) for p in PATHS] + [('varargs/path:' + p, cases(p, 'varargs')) for p in PATHS]
+    # one stratum per (path, keymap family): typed raw keys, string, pickle, hash and chained keymaps each get their own budget
+    out = [('path:%s/%s' % (p, fam), cases(p, None, fam)) for p in PATHS for fam in FAMILIES]
+    return out + [('varargs/path:' + p, cases(p, 'varargs')) for p in PATHS]
 
 
 def top_level_type_diff(x, y):
@@ -158,12 +190,12 @@ def run_case(case):
         oracle_fn = target
     elif case['kind'] == 'partial':
         base = S.make_plain(sig, body)
-        target = functools.partial(base, *[V.build(s) for s in case['fixed']])
+        target = functools.partial(base, *[V.build(s) for s in case['fixed']], **dict((n, V.build(v)) for n, v in case.get('pkw', [])))
         oracle_fn = target
     else:
         target = S.make_plain(sig, body)
         oracle_fn = target
-    rest = rest_sig(sig, case['nfix'], [])
+    rest = rest_sig(sig, case['nfix'], case.get('pkw', []))
     a1, k1 = S.spell_full(rest, case['b1'], case['form1'])
     a2, k2 = S.spell_full(rest, case['b2'], case['form2'])
     a1, a2 = prefix + a1, prefix + a2
@@ -173,6 +205,18 @@ def run_case(case):
                'keymap:%s%s' % (km_spec['cls'], '' if km_spec['flat'] else '-nonflat')]
     if x is None or y is None:
         return [Discrepancy('C10/harness/invalid-call', '%r %r / %r %r' % (a1, k1, a2, k2))], None, classes
+    tol, deep = case.get('tol'), bool(case.get('deep'))
+    tkw = {}
+    if tol is not None:
+        # under a rounding tolerance two calls are 'different' only if they still differ after (reference) rounding of what the caller passed
+        from props.c12 import R_call, exact
+        tkw = {'tol': tol, 'deep': deep}
+        classes.append('tol:%r' % tol)
+        ra1, rk1 = R_call(a1, k1, tol, 'deep' if deep else 'simple')
+        ra2, rk2 = R_call(a2, k2, tol, 'deep' if deep else 'simple')
+        x, y = S.bound(oracle_fn, ra1, rk1), S.bound(oracle_fn, ra2, rk2)
+        if x is None or y is None:
+            return [Discrepancy('C10/harness/invalid-call-after-rounding', '%r %r' % (ra1, rk1))], None, classes
     unequal = not S.bound_equal(x, y)
     twin = (not unequal) and top_level_type_diff(x, y)
     if not unequal and not twin:
@@ -194,9 +238,9 @@ def run_case(case):
         try:
             sa, sk = S.spell_full(rest, case['b1'], 0)
             if path in ('fkey', 'call'):
-                H.decorator_class(case['module'], case['algo'])(keymap=km)(sib).key(*sa, **sk)
+                H.decorator_class(case['module'], case['algo'])(keymap=km, **tkw)(sib).key(*sa, **sk)
             elif path == 'keygen':
-                klepto.keygen(keymap=km)(sib)(*sa, **sk)
+                klepto.keygen(keymap=km, **tkw)(sib)(*sa, **sk)
             else:
                 klepto._keygen(sib, (), *sa, **sk)
         except Exception as e:
@@ -204,7 +248,7 @@ def run_case(case):
             return out, None, classes
     try:
         if path in ('fkey', 'call'):
-            f = H.decorator_class(case['module'], case['algo'])(keymap=km)(target)
+            f = H.decorator_class(case['module'], case['algo'])(keymap=km, **tkw)(target)
             key1, key2 = f.key(*a1, **k1), f.key(*a2, **k2)
             if path == 'call':
                 r1 = f(*a1, **k1)
@@ -217,7 +261,7 @@ def run_case(case):
                                            'f(*%r, **%r) then f(*%r, **%r): second call evaluated %d times and returned %r (own value %r); keys %r / %r' % (
                                                a1, k1, a2, k2, n2 - n1, r2, exp2, key1, key2)))
         elif path == 'keygen':
-            kg = klepto.keygen(keymap=km)(target)
+            kg = klepto.keygen(keymap=km, **tkw)(target)
             key1, key2 = kg(*a1, **k1), kg(*a2, **k2)
         else:
             x1 = klepto._keygen(target, (), *a1, **k1)
@@ -242,7 +286,7 @@ def run_case(case):
     return out, nt, classes
 
 
-REQUIRED_CLASSES = ['unequal_pair', 'twin_typed', 'edit:twin_swap', 'edit:sibling_default', 'sibling_keyed_first', 'edit:lookalike', 'edit:add_xpos', 'edit:add_xkw', 'nt:xpos', 'nt:xkw', 'nt:kwonly', 'kind:method', 'kind:partial']
+REQUIRED_CLASSES = ['tol:0', 'tol:1', 'edit:spell_original_default', 'unequal_pair', 'twin_typed', 'edit:twin_swap', 'edit:sibling_default', 'sibling_keyed_first', 'edit:lookalike', 'edit:add_xpos', 'edit:add_xkw', 'nt:xpos', 'nt:xkw', 'nt:kwonly', 'kind:method', 'kind:partial']
 
 
 def trig_flat_str_unwrap(case, discr):
